@@ -79,7 +79,8 @@ theorem commandStage_step (rh : HookFn) (hrh : HookOK rh) (w : W) (cg : Oid) (li
   · split
     · exact Step.refl w
     · simp only []
-      have h := Step.trans (emit_same w (.tCmd cg line)).step (hrh _ cg (.cmd line))
+      have h := Step.trans (emit_same w (.tCmd cg (line.take (maxVerbBuff - 1)).toString)).step
+        (hrh _ cg (.cmd (line.take (maxVerbBuff - 1)).toString))
       split
       · exact h
       · exact Step.trans h (addOut_step _ _ _)
